@@ -1667,4 +1667,238 @@ theorem first_change (f : Nat → Nat) (h : ∃ j, f j ≠ f 0) : ∃ j, f (j+1)
         exact least j ⟨i, hi, hne⟩
     · exact ih e
 
+/-- the kinds of steps of a calm run during a GC -/
+def StepKind (c : Cfg) (s s' : State) (a : Option Act) : Prop :=
+  s' = s ∨ (∃ a', a = some a' ∧ QuietEff c s a' s') ∨
+  (∃ w tag, a = some (.park w tag) ∧ s.parked + 1 = c.n ∧ step c s (.park w tag) = some s')
+
+theorem FiniteSpawn.shift {tr : Nat → State} (h : FiniteSpawn tr) (K : Nat) : FiniteSpawn (fun j => tr (K + j)) := by
+  obtain ⟨N, hN⟩ := h; exact ⟨N, fun j => hN (K + j)⟩
+theorem FiniteEnv.shift {act : Nat → Option Act} (h : FiniteEnv act) (K : Nat) : FiniteEnv (fun j => act (K + j)) := by
+  obtain ⟨K0, h0⟩ := h; exact ⟨K0, fun j a hj ha => h0 (K + j) a (by omega) ha⟩
+theorem NoAssert.shift {c : Cfg} {tr : Nat → State} (h : NoAssert c tr) (K : Nat) : NoAssert c (fun j => tr (K + j)) :=
+  fun j => h (K + j)
+
+/-- **a GC in progress completes**: `gcDone` changes -/
+theorem gc_done_changes {c : Cfg} {tr : Nat → State} {act : Nat → Option Act}
+    (hn : 0 < c.n) (hmut : c.mutAddOpen = false) (hu : c.unconIdx < c.L)
+    (R : FairRun c tr act) (hN : FiniteSpawn tr) (hE : FiniteEnv act) (hA : NoAssert c tr) (hP : Pending c (tr 0))
+    (hc : (tr 0).current = some .gc) : ∃ j, (tr j).gcDone ≠ (tr 0).gcDone := by
+  apply Classical.byContradiction
+  intro hno
+  have hg : ∀ j, (tr j).gcDone = (tr 0).gcDone := fun j => Classical.byContradiction (fun h => hno ⟨j, h⟩)
+  have hg1 : ∀ j, (tr (j+1)).gcDone = (tr j).gcDone := fun j => by rw [hg (j+1), hg j]
+  -- the Gc goal stays current
+  have hcur : ∀ j, (tr j).current = some .gc := by
+    intro j
+    induction j with
+    | zero => exact hc
+    | succ j ih =>
+      cases ha : act j with
+      | none => rw [R.stutter_at ha]; exact ih
+      | some a => exact current_gc_step hn (R.reach j) ih (R.step_at ha) (hg1 j)
+  have hnx : ∀ j, NoExit (tr j) := by
+    intro j g hgc; rw [hcur j] at hgc; injection hgc with hgc; subst hgc; rfl
+  have hpend : ∀ j, Pending c (tr j) := by
+    intro j
+    induction j with
+    | zero => exact hP
+    | succ j ih =>
+      cases ha : act j with
+      | none => rw [R.stutter_at ha]; exact ih
+      | some a =>
+        by_cases hl : IsLastPark c (tr j) (some a)
+        · obtain ⟨w, tag, e, _⟩ := hl
+          injection e with e; subst e
+          refine ⟨Or.inr (hcur (j+1)), hnx (j+1), fun x hx => ?_⟩
+          by_cases e : x = w
+          · subst e
+            rcases step_park_self (R.step_at ha) with h | h | h <;> rw [h] <;> simp
+          · rcases step_park_other (R.step_at ha) e with h | ⟨_, h⟩
+            · rw [h]; exact ih.2.2 x hx
+            · rw [h]; simp
+        · exact pending_step hn (R.reach j) ih (R.step_at ha) hl
+  obtain ⟨K, hconst, hK2, hnoexec⟩ := eventually_calm hu R hN hE
+  -- every step after `K` is a stutter, a quiet step, or the last parker's `park`
+  have kinds : ∀ j, K ≤ j → StepKind c (tr j) (tr (j+1)) (act j) := by
+    intro j hj
+    cases ha : act j with
+    | none => exact Or.inl (R.stutter_at ha)
+    | some a =>
+      by_cases hl : ∃ w tag, a = .park w tag ∧ (tr j).parked + 1 = c.n
+      · obtain ⟨w, tag, rfl, hl⟩ := hl
+        exact Or.inr (Or.inr ⟨w, tag, rfl, hl, R.step_at ha⟩)
+      · have hs := R.step_at ha
+        have hq := quiet_cases hs (hK2 j a hj ha) (hconst j hj).1 (hconst j hj).2 (hnoexec j hj) hl
+        exact Or.inr (Or.inl ⟨a, rfl, quiet_effect hs hq (reachable_invE hn (R.reach j)).2 (hnx j)⟩)
+  -- what the last parker's `park` does to buckets and designated queues
+  have lastpark : ∀ j w tag, (tr j).parked + 1 = c.n → step c (tr j) (.park w tag) = some (tr (j+1)) →
+      ∃ s1 r, onLastParked c { tr j with parked := (tr j).parked + 1, trace := [] } tag = some (s1, r) ∧
+        s1.gcDone = (tr j).gcDone ∧ (tr (j+1)).bkt = s1.bkt ∧ (tr (j+1)).desig = (tr j).desig := by
+    intro j w tag hl hs
+    obtain ⟨_, _, _, hcase⟩ := step_park_cases hs
+    rcases hcase with ⟨hnl, _⟩ | ⟨_, s1, r, hlp, he⟩
+    · exact absurd hl hnl
+    · have f := frame_onLastParked c _ _ _ _ hlp
+      refine ⟨s1, r, hlp, ?_, by rw [he], ?_⟩
+      · have : (tr (j+1)).gcDone = s1.gcDone := by rw [he]
+        rw [← this]; exact hg1 j
+      · have : (tr (j+1)).desig = s1.desig := by rw [he]
+        rw [this, f.desig]
+  have hdesig : ∀ j, K ≤ j → (tr (j+1)).desig = (tr j).desig := by
+    intro j hj
+    rcases kinds j hj with e | ⟨a, _, he⟩ | ⟨w, tag, _, hl, hs⟩
+    · rw [e]
+    · exact quietEff_desig he
+    · obtain ⟨_, _, _, _, _, hd⟩ := lastpark j w tag hl hs; exact hd
+  have hflags : ∀ j, K ≤ j → ∀ b, (((tr j).bkt b).isOpen = true → ((tr (j+1)).bkt b).isOpen = true) ∧
+      (((tr j).bkt b).sentinel = none → ((tr (j+1)).bkt b).sentinel = none) := by
+    intro j hj b
+    rcases kinds j hj with e | ⟨a, _, he⟩ | ⟨w, tag, _, hl, hs⟩
+    · rw [e]; exact ⟨id, id⟩
+    · obtain ⟨h1, h2⟩ := quietEff_flags he b; rw [h1, h2]; exact ⟨id, id⟩
+    · obtain ⟨s1, r, hlp, hgd, hb, _⟩ := lastpark j w tag hl hs
+      rw [hb]
+      exact onLastParked_gc_mono hlp (hcur j) hgd b
+  -- the flags of every bucket are eventually constant
+  have hopenC : ∀ b, b < c.L → ∃ J, ∀ j, J ≤ j → ((tr (K + j + 1)).bkt b).isOpen = ((tr (K + j)).bkt b).isOpen := by
+    intro b _
+    obtain ⟨J, hJ⟩ := bool_mono_const (fun j => ((tr (K + j)).bkt b).isOpen) (fun j h => (hflags (K + j) (by omega) b).1 h)
+    exact ⟨J, fun j hj => by have h1 := hJ j hj; have h2 := hJ (j+1) (by omega); rw [h1]; exact h2⟩
+  have hsentC : ∀ b, b < c.L → ∃ J, ∀ j, J ≤ j →
+      ((tr (K + j + 1)).bkt b).sentinel.isNone = ((tr (K + j)).bkt b).sentinel.isNone := by
+    intro b _
+    obtain ⟨J, hJ⟩ := bool_mono_const (fun j => ((tr (K + j)).bkt b).sentinel.isNone)
+      (fun j h => by
+        have h0 : ((tr (K + j)).bkt b).sentinel = none := by simpa using h
+        have := (hflags (K + j) (by omega) b).2 h0
+        show ((tr (K + j + 1)).bkt b).sentinel.isNone = true
+        rw [this]; rfl)
+    exact ⟨J, fun j hj => by have h1 := hJ j hj; have h2 := hJ (j+1) (by omega); rw [h1]; exact h2⟩
+  obtain ⟨J1, hJ1⟩ := eventually_forall_lt c.L _ hopenC
+  obtain ⟨J2, hJ2⟩ := eventually_forall_lt c.L _ hsentC
+  -- a last parker after that point can only have found designated work
+  let K3 := K + max J1 J2
+  obtain ⟨j1, ⟨w, tag, hact, hlast⟩, _⟩ := last_park_eventually hn hmut hu (R.shift K3) (hN.shift K3) (hE.shift K3)
+    (hA.shift K3) (hpend K3)
+  have hm : K ≤ K3 + j1 := by omega
+  have hs : step c (tr (K3 + j1)) (.park w tag) = some (tr (K3 + j1 + 1)) := R.step_at hact
+  obtain ⟨s1, r, hlp, hgd, hb, _⟩ := lastpark (K3 + j1) w tag hlast hs
+  have hidx : K3 + j1 = K + (max J1 J2 + j1) := by omega
+  rcases onLastParked_gc_cases hlp (hcur (K3 + j1)) hgd with ⟨hd, hs1, hr⟩ | ⟨b, hbL, h1, h2⟩ | ⟨b, hbL, h1, h2⟩
+  · -- designated work for some worker `x`
+    subst hs1; subst hr
+    obtain ⟨x, hx, hdx⟩ := hasDesignated_true hd
+    have hs' := step_park_wakeAll hs hlast hlp
+    obtain ⟨hw, hpcw, _, _⟩ := step_park_cases hs
+    have hA' := reachable_invA (R.reach (K3 + j1))
+    -- `x` is woken or at its loop head after the step
+    have hpcx : (tr (K3 + j1 + 1)).pc x = .woken ∨ (tr (K3 + j1 + 1)).pc x = .polling [] := by
+      rw [hs']
+      by_cases e : x = w
+      · subst e; right
+        rw [afterUnpark_noExit x (by intro g hgc; exact hnx (K3 + j1) g hgc)]
+        exact setPc_pc_self _ _ _
+      · left
+        rw [afterUnpark_pc_other e]
+        have hpar := countW_all_but c.n (fun y => ((tr (K3 + j1)).pc y).isParked) w hw (by simp [hpcw, PC.isParked])
+          (by have := hA'.parked_eq; unfold parkedCount at this; omega) x hx e
+        show (notifyAll _).pc x = _
+        simp only [notifyAll]
+        cases hp : (tr (K3 + j1)).pc x <;> rw [hp] at hpar <;> simp_all [PC.isParked]
+    have hdes : ∀ d, (tr (K3 + j1 + 1 + d)).desig x ≠ [] := by
+      intro d
+      induction d with
+      | zero => rw [hdesig (K3 + j1) hm]; exact hdx
+      | succ d ih => rw [show K3 + j1 + 1 + (d + 1) = (K3 + j1 + 1 + d) + 1 by omega, hdesig _ (by omega)]; exact ih
+    have hdes' : ∀ m, K3 + j1 + 1 ≤ m → (tr m).desig x ≠ [] := by
+      intro m hm'
+      have := hdes (m - (K3 + j1 + 1))
+      rwa [show K3 + j1 + 1 + (m - (K3 + j1 + 1)) = m by omega] at this
+    -- `x` reaches its loop head
+    have hpoll : ∃ m, K3 + j1 + 1 ≤ m ∧ (tr m).pc x = .polling [] := by
+      rcases hpcx with hwk | hpl
+      · obtain ⟨m, hm', _, a, ha, hmem⟩ := wf1 R (.wake x) (fun m => (tr m).pc x = .woken) (K3 + j1 + 1) hwk
+          (by
+            intro m hm' hPm hnt
+            rcases kinds m (by omega) with e | ⟨a, ha, he⟩ | ⟨w', tag', ha, _, hs2⟩
+            · rw [e]; exact hPm
+            · rcases quietEff_pc he x with h | ⟨k, seen', _, hp1, _⟩ | ⟨b, p, sn, _, _, _, hpw⟩ | ⟨seen', _, hp1, _⟩ |
+                  ⟨tag, _, hpw⟩ | ⟨rfl, _⟩
+              · rw [h]; exact hPm
+              · rw [hPm] at hp1; cases hp1
+              · rw [hPm] at hpw; cases hpw
+              · rw [hPm] at hp1; cases hp1
+              · rw [hPm] at hpw; cases hpw
+              · exact absurd ⟨_, ha, rfl⟩ hnt
+            · have e : x ≠ w' := by
+                intro e; subst e
+                obtain ⟨_, hp, _, _⟩ := step_park_cases hs2
+                rw [hPm] at hp; cases hp
+              rcases step_park_other hs2 e with h | ⟨h, _⟩
+              · rw [h]; exact hPm
+              · rw [hPm] at h; cases h)
+          (by
+            intro m _ hPm
+            refine ⟨.wake x, rfl, ?_⟩
+            have hAm := reachable_invA (R.reach m)
+            have hpos : 0 < (tr m).parked := by
+              rw [hAm.parked_eq]
+              exact countW_pos c.n _ x hx (by rw [hPm]; rfl)
+            simp [step, hx, hPm, hpos])
+        simp only [FairAct.mem] at hmem; subst hmem
+        have hs3 : step c (tr m) (.wake x) = some (tr (m+1)) := R.step_at ha
+        have hq := quiet_cases hs3 rfl (hconst m (by omega)).1 (hconst m (by omega)).2 (hnoexec m (by omega))
+          (by intro ⟨_, _, e', _⟩; cases e')
+        exact ⟨m + 1, by omega, quietEff_wake (quiet_effect hs3 hq (reachable_invE hn (R.reach m)).2 (hnx m))⟩
+      · exact ⟨K3 + j1 + 1, Nat.le_refl _, hpl⟩
+    obtain ⟨m3, hm3, hp3⟩ := hpoll
+    -- from then on `x` can take its designated packet, forever: fairness makes it do so — a packet starts
+    obtain ⟨m4, hm4, _, a, ha, hmem⟩ := wf1 R (.take x) (fun m => DesigCov (tr m) x) m3
+      ⟨hdes' m3 hm3, [], hp3, by simp⟩
+      (by
+        intro m hm' hPm _
+        rcases kinds m (by omega) with e | ⟨a, ha, he⟩ | ⟨w', tag', ha, _, hs2⟩
+        · rw [e]; exact hPm
+        · exact desigCov_stable he hPm
+        · obtain ⟨hd0, seen, hpc, hns⟩ := hPm
+          have e : x ≠ w' := by
+            intro e; subst e
+            obtain ⟨_, hp, _, _⟩ := step_park_cases hs2
+            rw [hpc] at hp; cases hp
+          refine ⟨hdes' (m+1) (by omega), seen, ?_, hns⟩
+          rcases step_park_other hs2 e with h | ⟨h, _⟩
+          · rw [h]; exact hpc
+          · rw [hpc] at h; cases h)
+      (by
+        intro m _ ⟨hne, seen, hpc, hns⟩
+        cases hdv : (tr m).desig x with
+        | nil => exact absurd hdv hne
+        | cons p l =>
+          refine ⟨.popDesig x p, Or.inr (Or.inr (Or.inl ⟨p, rfl⟩)), ?_⟩
+          simp [step, hpc, hx, hdv])
+    -- the step at `m4` starts a packet, but no packet starts after `K`
+    have hs4 := R.step_at ha
+    have hq := quiet_cases hs4 (hK2 m4 a (by omega) ha) (hconst m4 (by omega)).1 (hconst m4 (by omega)).2
+      (hnoexec m4 (by omega))
+      (by
+        intro ⟨_, _, e', _⟩; subst e'
+        simp only [FairAct.mem] at hmem
+        rcases hmem with ⟨_, _, e⟩ | ⟨_, e⟩ | ⟨_, e⟩ | ⟨_, _, e⟩ <;> cases e)
+    exact quietEff_not_take (quiet_effect hs4 hq (reachable_invE hn (R.reach m4)).2 (hnx m4)) x hmem
+  · -- a sentinel slot was emptied: contradicts constancy
+    have := hJ2 b hbL (max J1 J2 + j1) (by omega)
+    rw [← hidx] at this
+    rw [hb, h2] at this
+    have h1' : ((tr (K3 + j1)).bkt b).sentinel ≠ none := h1
+    cases hsn : ((tr (K3 + j1)).bkt b).sentinel with
+    | none => exact h1' hsn
+    | some p => rw [hsn] at this; cases this
+  · -- a closed bucket was opened: contradicts constancy
+    have := hJ1 b hbL (max J1 J2 + j1) (by omega)
+    rw [← hidx] at this
+    rw [hb, h2] at this
+    have h1' : ((tr (K3 + j1)).bkt b).isOpen = false := h1
+    rw [h1'] at this; cases this
+
 end Mmtk.Sched
